@@ -8,6 +8,7 @@ package c14
 import (
 	"context"
 	"fmt"
+	"os"
 	"reflect"
 	"strings"
 	"sync"
@@ -33,6 +34,8 @@ type host struct {
 	mu    sync.Mutex
 	trace []string
 	env   *env.Env
+	// onProbe (if set) is called at every call of the probe p, i.e. from inside the statement being run
+	onProbe func()
 }
 
 // newHost builds a fresh probe environment. Presets bind the SAME names to DIFFERENT Go
@@ -44,6 +47,9 @@ func newHost(preset int) *host {
 	hst.env = base.Env
 	off := int64(preset) * 1000
 	hst.env.Define("p", func(args ...interface{}) interface{} {
+		if hst.onProbe != nil {
+			hst.onProbe()
+		}
 		hst.mu.Lock()
 		defer hst.mu.Unlock()
 		if len(args) == 0 {
@@ -248,7 +254,23 @@ func oracle(c Case, o *h.Obs) *h.Fail {
 	}
 	// sequential reuse of the one tree
 	for i, ps := range c.Presets {
-		got := runTree(tree, ps, to)
+		// the tree is also looked at DURING the first of these runs: the first calls of the probe p dump it
+		during, probes := "", 0
+		got := runTreeOpts(tree, ps, to, nil, func(hst *host) {
+			if i > 0 {
+				return
+			}
+			hst.onProbe = func() {
+				if probes++; probes <= 4 && during == "" {
+					if d := dump.Dump(tree, dump.Opts{Positions: true}); d != d0 {
+						during = d
+					}
+				}
+			}
+		})
+		if during != "" {
+			return h.Failf("C14|tree-modified|during-a-run|reuse", "the parsed tree is not the tree that was parsed while run %d is inside a statement (dumped from the probe p)\ndiff near: %s\nsource:\n%s", i+1, firstDiff(d0, during), src)
+		}
 		if got != solo[ps] {
 			return h.Failf("C14|reused-tree-differs|sequential", "run %d of the shared tree (preset %d) differs from a fresh parse run alone in an equal environment\nshared: %v\nfresh:  %v\nsource:\n%s", i+1, ps, got, solo[ps], src)
 		}
@@ -834,25 +856,68 @@ func mustParse(src string) ast.Stmt {
 	return t
 }
 
+// only: development aid - C14_ONLY=during,coreenv runs the named sub-checks only (unset: all)
+func only(name string) bool {
+	v := os.Getenv("C14_ONLY")
+	if v == "" {
+		return true
+	}
+	for _, n := range strings.Split(v, ",") {
+		if n == name {
+			return true
+		}
+	}
+	return false
+}
+
 func TestC14(t *testing.T) {
 	c := h.New(t, "C14")
 	defer c.Finish()
 	c.Rule("reuse: goroutine-free programs from the union of the scopes/control/errors profiles plus x++ / x op= e, anonymous and deferred calls, parsed once and run 3-4 times in environments of alternating presets (same names bound to different Go functions), then from 8 goroutines at once; compared with fresh parses run alone in equal fresh environments (value, error text, probe trace, final top-level bindings) and with the tree's structural dump before the first run; non-trivial = >=1 call and (>=1 ++/op= or deferred/anonymous call), >=3 runs in 2 presets. tree: full-grammar programs (ill-typed, mostly failing) run twice and from 4 goroutines, dump must not change. import: rebinding symbols inside an imported package table in one environment must not be visible to another import or in env.Packages. distinct by source text. Built with -race")
-	h.Run(c, "reuse", c.N(800, 6000), gen, oracle)
-	h.Run(c, "tree", c.N(800, 6000), genWild, oracleWild)
-	h.Run(c, "import", c.N(400, 4000), genImport, oracleImport)
+	if only("reuse") {
+		h.Run(c, "reuse", c.N(800, 6000), gen, oracle)
+	}
+	if only("tree") {
+		h.Run(c, "tree", c.N(800, 6000), genWild, oracleWild)
+	}
+	if only("import") {
+		h.Run(c, "import", c.N(400, 4000), genImport, oracleImport)
+	}
 	c.Rule("residue: 1-3 idioms that take a value the interpreter hands out from a shared box (nil/true/false literals, 'no value' results, small computed integers, the 1 of ++) and write through a pointer / ++ / op= / element / field / parameter; a fixed canary program in a fresh environment must evaluate as at process start; every case non-trivial")
-	h.Run(c, "residue", c.N(3000, 20000), genResidue, oracleResidue)
+	if only("residue") {
+		h.Run(c, "residue", c.N(3000, 20000), genResidue, oracleResidue)
+	}
 	c.Rule("types: 1-3 programs over the type names T (bound per run to int64/string/float64/bool or unbound), U (bound in a template environment) and W (defined by some programs with make(type ...)), each parsed once; 2-6 runs, each in an environment derived from the one template by Copy / DeepCopy / NewEnv / Copy of a child; every run must equal a fresh parse in an environment derived the same way from a fresh template; the template must not learn a type from a run; non-trivial = >= 2 runs with >= 2 different bindings of T")
-	h.Run(c, "types", c.N(3000, 20000), genTypes, oracleTypes)
+	if only("types") {
+		h.Run(c, "types", c.N(3000, 20000), genTypes, oracleTypes)
+	}
 	c.Rule("interleave: two environments take turns running small programs (closures over parameters and locals of finished calls made in nested blocks, closures stored through the enclosing scope, loops that change the map they walk, modules, recursion with deferred calls; later turns use what earlier ones left); every environment must get the results it gets when its programs run alone, and the whole sequence the same results when repeated; non-trivial = both environments ran and A ran at least twice")
-	h.Run(c, "interleave", c.N(3000, 20000), genInterleave, oracleInterleave)
+	if only("interleave") {
+		h.Run(c, "interleave", c.N(3000, 20000), genInterleave, oracleInterleave)
+	}
 	c.Rule("importtypes: an environment 1-3 scopes below a base imports one of the bundled packages that has a type table (four spellings: assigned, bare, inside a function, twice); afterwards a type name of that package must be unknown (Env.Type and `make(T)` both fail) in a sibling under the same base, in the base, in a grandchild of the base and in an unrelated root; non-trivial = the import ran")
-	h.Run(c, "importtypes", c.N(1500, 15000), genImportTypes, oracleImportTypes)
+	if only("importtypes") {
+		h.Run(c, "importtypes", c.N(1500, 15000), genImportTypes, oracleImportTypes)
+	}
 	c.Rule("objects: 1-3 programs that import a bundled package, make an object with a constructor of its table (compiled regular expression - four constructors -, byte buffer, string reader, replacer, big integer, parsed URL, error value) from arguments that carry a number drawn from 0..2^24 (the programs of a case share them), observe it through 1-5 method calls of which some change the object (Longest, WriteString, ReadByte, Reset, Add, SetInt64, field stores ...), and return the list of observations; 4-8 executions, each in a fresh environment, then optionally every program from 2-3 goroutines at once; every execution of one source must give the result its first execution gave; non-trivial = a program ran at least twice and some program changes its object and observes it afterwards")
-	h.Run(c, "objects", c.N(1200, 10000), genObjects, oracleObjects)
+	if only("objects") {
+		h.Run(c, "objects", c.N(1200, 10000), genObjects, oracleObjects)
+	}
 	c.Rule("options: one program parsed once and ONE *vm.Options value (Debug drawn) passed to every run: 2 .. some hundred runs one after the other, then 2-16 goroutines at once, every run in a fresh environment (alternating presets); every run must equal a fresh parse run in an equal fresh environment with an Options value of its own. Programs: a loop of 1-150 calls that fail (twelve forms: a Go function that panics, a callback that fails inside a Go function, failed lookup / index / member / conversion / arity, throw) each caught and followed by a successful call, optionally ending with an uncaught failure; or recursion 1-2500 deep (plain, closure variable, mutual, with deferred calls, failing at the bottom, with a caught failure at every level); the host function meet() at the deepest point makes the concurrent runs wait for each other. Every second case is large (12 000-26 000 failing calls made with the one Options value, or recursion 1500-2500 deep in each of 8-16 goroutines); non-trivial = at least 3 runs with the one Options value")
-	h.Run(c, "options", c.N(20, 360), genOptions, oracleOptions)
+	if only("options") {
+		h.Run(c, "options", c.N(20, 360), genOptions, oracleOptions)
+	}
 	c.Rule("firstrun: programs of 1-4 snippets, every snippet a small well-typed piece of anko over written-out operands (x in [written-out list] in six spellings, list / map / typed / nested / string literals indexed and sliced, arithmetic, comparison, logic, ternary, ??, ++ / op=, switch over literals, the five loop forms, functions / closures / variadic / deferred / anonymous calls, make / new / pointers / channels / struct types, try / throw, module, var, multi-assignment, import), evaluated once, in a loop, or in a function called twice; written-out lists have 1-8 elements, one in eight 200-3000 (the item searched for near the start, the middle, the end, or absent). The tree is parsed once; its FIRST execution happens from 2-16 goroutines released at the same moment, each in a fresh environment (three cases in four; else two runs one after the other first), then the other phase; every run must equal the run of another fresh parse alone, and the dump of the tree must not change; non-trivial = the program ran to its end and >= 2 goroutines")
-	h.Run(c, "firstrun", c.N(180, 4000), genFirstRun, oracleFirstRun)
+	if only("firstrun") {
+		h.Run(c, "firstrun", c.N(180, 4000), genFirstRun, oracleFirstRun)
+	}
+	c.Rule("during: programs of 1-3 statements that call the host function gate() from INSIDE a statement: compound assignments and ++ / -- whose target has a computed index (sixteen index spellings, seven key spellings; list, nested list, member-then-index and map targets; six operators; at top level, in a loop, in a function, in a deferred call, in a recursive function whose right side recurses, in a loop of 50-300 quick statements), one case in ten another kind of statement or expression with gate() inside (thirty forms). The environment of every run binds base / idx() / key() to a run parameter 0..3 of its own, so the indexes differ from run to run; gate() dumps the tree (compared with the dump before the first run) and, in the concurrent phase, holds the run inside the statement (nested: run g waits until run g+1 has run from start to end; barrier: all runs meet; free). Fresh parses run alone (dumped from inside too), the shared tree one run after the other, then 2-5 runs in progress at once; every run must equal the run alone with its parameter; non-trivial = >= 2 different run parameters and gate() was called")
+	if only("during") {
+		h.Run(c, "during", c.N(250, 4000), genDuring, oracleDuring)
+	}
+	c.Rule("coreenv: 2-3 environments, each core.Import(env.NewEnv()) (one in five runs in a child scope of it), plus environment 0 = the environment core was imported to first in this process (only the host binds names there); 1-3 programs parsed once (binders: assignment / var / func / module / load of a small file written by the test; questions: defined(name) in eight spellings, also from inside a loaded file, reading the name, calling what a loaded file defined), 4-9 steps (run a program in an environment, or the host defines a name); every environment must get the results it gets when only its steps run (fresh parses, fresh prepared environment), the history the same results when repeated, the host must find in every environment the names it finds after that environment's steps alone and in environment 0 only what it defined there; all environments asking at the same moment get what they get one after the other; non-trivial = >= 2 environments ran and a program uses defined or load")
+	defer coreLibCleanup()
+	if only("coreenv") {
+		h.Run(c, "coreenv", c.N(400, 5000), genCoreEnv, oracleCoreEnv)
+	}
 }
